@@ -15,6 +15,7 @@ use std::sync::atomic::{AtomicU64, Ordering};
 use serde_json::{Map, Value as J, json};
 
 mod runner;
+mod ledger;
 mod utilsrun;
 mod alloc_count;
 
@@ -22,6 +23,28 @@ mod alloc_count;
 static GLOBAL: alloc_count::Counting = alloc_count::Counting;
 
 static CASE_STARTED_AT: AtomicU64 = AtomicU64::new(0);
+pub static LAST_PANIC_LOC: std::sync::Mutex<String> = std::sync::Mutex::new(String::new());
+
+/// source location (file:line, path made relative to the repo) of the most recent panic, and clear it
+pub fn take_panic_loc() -> String {
+    let s = match LAST_PANIC_LOC.lock() {
+        Ok(mut g) => std::mem::take(&mut *g),
+        Err(_) => String::new(),
+    };
+    for pre in ["abra_core/src/", "utils/src/"] {
+        if let Some(i) = s.find(pre) {
+            return s[i..].to_string();
+        }
+    }
+    // third-party crate: keep "<crate-version>/src/file.rs:line"
+    if let Some(i) = s.find("/registry/src/") {
+        let rest = &s[i + "/registry/src/".len()..];
+        if let Some(j) = rest.find('/') {
+            return rest[j + 1..].to_string();
+        }
+    }
+    s
+}
 
 fn now_ms() -> u64 {
     std::time::SystemTime::now()
@@ -197,7 +220,14 @@ fn worker(args: &[String]) {
             }
         }
     });
-    std::panic::set_hook(Box::new(|_| {}));
+    // silent hook; remembers the source location of the last panic (reported as obs.panic_loc)
+    std::panic::set_hook(Box::new(|info| {
+        if let Some(l) = info.location() {
+            if let Ok(mut g) = LAST_PANIC_LOC.lock() {
+                *g = format!("{}:{}", l.file(), l.line());
+            }
+        }
+    }));
 
     let modules = runner::load_repo_modules();
     let mut f = std::fs::OpenOptions::new()
